@@ -13,7 +13,7 @@ use crate::{
 	engine::{Engine, LegOpts, Outcome},
 	jobdrive::{run_case, JobCase, Op, Trace},
 	jobgen,
-	sim::Ev,
+	sim::{ChildSpec, Ev, React, SimSpec},
 };
 
 fn spawn_reap_intervals(trace: &Trace) -> Vec<(u64, Option<u64>)> {
@@ -302,6 +302,147 @@ pub fn run_mt(c: &super::c04::MtCase) -> Outcome {
 	o
 }
 
+// ---------------------------------------------------------------------------------------------
+// A graceful stop whose deadline falls inside a sustained flood of high-priority controls
+
+#[derive(Clone, Debug, serde::Serialize, serde::Deserialize)]
+pub struct HiFloodCase {
+	/// 0 stop_with_signal, 1 restart_with_signal, 2 try_restart_with_signal
+	pub kind: u8,
+	pub grace_ms: u16,
+	/// the flood starts this long after the graceful control (always before the deadline)
+	pub lead_ms: u16,
+	pub flooders: u8,
+}
+
+const HIFLOOD_SLACK_MS: u64 = 700;
+
+pub fn run_hiflood(c: &HiFloodCase) -> Outcome {
+	use std::sync::atomic::{AtomicBool, AtomicU64, Ordering};
+	use std::sync::Arc;
+	use std::time::{Duration, Instant};
+	use watchexec_supervisor::{
+		command::{Command, Program, SpawnOptions},
+		job::start_job,
+	};
+	let mut o = Outcome::pass();
+	o.nontrivial = true;
+	let grace = u64::from(c.grace_ms);
+	let flood_ms = grace + HIFLOOD_SLACK_MS + 500;
+	let rt = tokio::runtime::Builder::new_multi_thread().worker_threads(3).enable_all().build().unwrap();
+	let spec = SimSpec { children: vec![ChildSpec { self_exit: None, code: 0, react: React::Ignore }], ..Default::default() };
+	struct Obs {
+		t0_ms: u64,
+		kill_ms: Option<u64>,
+		ticket_ms: Option<u64>,
+		sent: u64,
+		flood_end_ms: u64,
+		log: String,
+	}
+	let obs: Result<Obs, String> = rt.block_on(async {
+		let world = crate::sim::World::new(spec);
+		let command = Arc::new(Command { program: Program::Exec { prog: "/bin/true".into(), args: Vec::new() }, options: SpawnOptions::default() });
+		let (job, task) = start_job(command);
+		job.set_spawn_hook(world.hook(None)).await;
+		job.start().await;
+		if world.spawned() == 0 {
+			return Err("simulated child was not spawned".into());
+		}
+		tokio::time::sleep(Duration::from_millis(20)).await;
+		let t0_ms = world.now_ms();
+		let g = Duration::from_millis(grace);
+		let sg = crate::jobdrive::sig(0).0;
+		let ticket = match c.kind % 3 {
+			0 => job.stop_with_signal(sg, g),
+			1 => job.restart_with_signal(sg, g),
+			_ => job.try_restart_with_signal(sg, g),
+		};
+		// the ticket is awaited on a plain OS thread: a tokio task woken by the (busy) job task could sit in
+		// that worker's LIFO slot until the job task yields
+		let ticket_ms = Arc::new(AtomicU64::new(0));
+		let waiter = {
+			let ticket_ms = ticket_ms.clone();
+			let world = world.clone();
+			std::thread::spawn(move || {
+				futures::executor::block_on(ticket);
+				ticket_ms.store(world.now_ms().max(1), Ordering::SeqCst);
+			})
+		};
+		tokio::time::sleep(Duration::from_millis(u64::from(c.lead_ms).min(grace.saturating_sub(10)))).await;
+		let stop = Arc::new(AtomicBool::new(false));
+		let sent = Arc::new(AtomicU64::new(0));
+		let mut th = Vec::new();
+		for _ in 0..c.flooders.clamp(1, 3) {
+			let job = job.clone();
+			let stop = stop.clone();
+			let sent = sent.clone();
+			th.push(std::thread::spawn(move || {
+				let mut n = 0u64;
+				while !stop.load(Ordering::Relaxed) {
+					drop(job.to_wait());
+					n += 1;
+				}
+				sent.fetch_add(n, Ordering::SeqCst);
+			}));
+		}
+		let until = Instant::now() + Duration::from_millis(flood_ms);
+		while Instant::now() < until {
+			tokio::time::sleep(Duration::from_millis(5)).await;
+		}
+		stop.store(true, Ordering::SeqCst);
+		let flood_end_ms = world.now_ms();
+		for t in th {
+			let _ = t.join();
+		}
+		// let the backlog drain, then end the job
+		let _ = tokio::time::timeout(Duration::from_secs(20), job.run(|_| {})).await;
+		job.delete_now().await;
+		let _ = tokio::time::timeout(Duration::from_secs(5), task).await;
+		let _ = waiter.join();
+		let log = world.log();
+		let kill_ms = log.iter().find(|r| matches!(r.ev, Ev::StartKill { .. })).map(crate::sim::Rec::ms);
+		let t = ticket_ms.load(Ordering::SeqCst);
+		Ok(Obs {
+			t0_ms,
+			kill_ms,
+			ticket_ms: if t == 0 { None } else { Some(t) },
+			sent: sent.load(Ordering::SeqCst),
+			flood_end_ms,
+			log: log.iter().take(12).map(|r| format!("{} ms {:?}", r.ms(), r.ev)).collect::<Vec<_>>().join("; "),
+		})
+	});
+	rt.shutdown_timeout(std::time::Duration::from_millis(300));
+	let obs = match obs {
+		Ok(x) => x,
+		Err(e) => {
+			o.fail("harness:hiflood", e);
+			return o;
+		}
+	};
+	if obs.sent > 10_000 {
+		o.label("flood>10000-controls");
+	}
+	let deadline = obs.t0_ms + grace;
+	let dump = || format!("\ncase {c:?}\ngraceful control at {} ms, deadline {} ms, kill at {:?} ms, ticket resolved at {:?} ms, {} to_wait controls sent until {} ms\nchild log: {}", obs.t0_ms, deadline, obs.kill_ms, obs.ticket_ms, obs.sent, obs.flood_end_ms, obs.log);
+	match obs.kill_ms {
+		None => o.fail("hiflood:never-killed", format!("the process that ignores the signal was never force-killed{}", dump())),
+		Some(k) if k + 1 < deadline => o.fail("hiflood:killed-before-grace", format!("force-killed {} ms before the grace period was over{}", deadline - k, dump())),
+		Some(k) if k > deadline + HIFLOOD_SLACK_MS => o.fail(
+			"hiflood:kill-starved-by-high-priority-controls",
+			format!("force-killed {} ms after the grace period was over, while other threads kept the high-priority queue busy{}", k - deadline, dump()),
+		),
+		// only the graceful stop's own ticket is judged: a graceful restart's ticket belongs to the normal-priority
+		// start behind it, which high-priority controls legitimately overtake for as long as they keep coming
+		_ if c.kind % 3 != 0 => {}
+		_ => match obs.ticket_ms {
+			None => o.fail("ticket-never-resolves:graceful", format!("the graceful control's ticket never resolved{}", dump())),
+			Some(t) if t > deadline + HIFLOOD_SLACK_MS + 300 => o.fail("ticket-late:graceful-under-high-priority-flood", format!("ticket resolved {} ms after the deadline{}", t - deadline, dump())),
+			_ => {}
+		},
+	}
+	o
+}
+
 pub fn check(e: &Engine) {
 	e.assume("simulated children via the public spawn hook, paused tokio clock (ms ticks), current-thread runtime with generated select! seed");
 	e.assume("completion bound of a control = execution instant of a run() marker queued right behind it (relies on per-priority FIFO, checked separately by C10)");
@@ -328,6 +469,21 @@ pub fn check(e: &Engine) {
 		&|| (jobgen::mt_case(), 2usize..5).prop_map(|(c, n)| super::c04::MtCase { case: c, senders: n }).boxed(),
 		&run_mt,
 	);
+	e.explore(
+		"high-priority-flood",
+		LegOpts {
+			cases: e.tier.pick(6, 60),
+			shards: 3,
+			threads: 3,
+			confirm: 3,
+			max_shrink_iters: 4,
+			rule: "real time, simulated child that ignores the signal: graceful stop / restart / try-restart with a grace period of 80-250 ms; from before the deadline until 1.2 s after it 1-3 OS threads send to_wait() (the high-priority control) as fast as they can: the force-kill must come no earlier than the deadline and no later than 700 ms after it, and the graceful stop's ticket (awaited on a plain thread) must resolve within a further 300 ms, while the flood is still going (a restart's ticket belongs to the normal-priority start, which the high-priority flood legitimately overtakes)",
+			confirm_any: &[],
+		},
+		&|| (0u8..3, prop_oneof![Just(80u16), Just(150), Just(250)], prop_oneof![Just(0u16), Just(40)], 1u8..4).prop_map(|(kind, grace_ms, lead_ms, flooders)| HiFloodCase { kind, grace_ms, lead_ms, flooders }).boxed(),
+		&run_hiflood,
+	);
+	e.require_label("high-priority-flood", "flood>10000-controls", 0.8);
 	e.require_label("tickets", "multi-waiter", 0.2);
 	e.require_label("tickets", "termination", 0.1);
 	e.require_label("tickets", "child-exits-inside-grace", 0.03);
